@@ -21,8 +21,15 @@ def split_by_order(sub, pairs):
     parameter pairs (x < y, x == y, x > y): the union is the original analysis."""
     import itertools
     out = []
+    import re
+    fixed = sub.get('fixed', {})
+
+    def fx(expr):
+        for n, v in fixed.items():
+            expr = re.sub(rf'\b{n}\b', str(v), expr)
+        return expr
     for pat in itertools.product(('<', '==', '>'), repeat=len(pairs)):
-        pre = list(sub.get('pre', [])) + [f'{x} {op} {y}' for (x, y), op in zip(pairs, pat)]
+        pre = list(sub.get('pre', [])) + [fx(f'{x} {op} {y}') for (x, y), op in zip(pairs, pat)]
         tag = ''.join({'<': 'l', '==': 'e', '>': 'g'}[o] for o in pat)
-        out.append(dict(sub, name=f"{sub['name']}#{tag}", pre=pre))
+        out.append(dict(sub, name=f"{sub['name']}#{tag}", pre=pre, may_be_empty=True))
     return out
